@@ -94,9 +94,65 @@ def _global_shuffle(root: str) -> None:
                     fh.write(_ast.unparse(tree) + "\n")
 
 
+def _global_rename_locals(root: str) -> None:
+    """behaviour-preserving: every local variable of every top-level function / method (assigned names, loop and
+    comprehension variables, `except ... as` names) gets the suffix `_v`.  Parameters, globals, attributes, keyword
+    names and anything that is also a parameter name somewhere inside the function are left alone."""
+    import ast as _ast
+    import builtins as _b
+
+    def rename_function(fn):
+        params, stores, banned = set(), set(), set()
+        for n in _ast.walk(fn):
+            if isinstance(n, (_ast.FunctionDef, _ast.AsyncFunctionDef, _ast.Lambda)):
+                a = n.args
+                for x in a.posonlyargs + a.args + a.kwonlyargs + ([a.vararg] if a.vararg else []) + ([a.kwarg] if a.kwarg else []):
+                    params.add(x.arg)
+                if n is not fn and not isinstance(n, _ast.Lambda):
+                    banned.add(n.name)
+            elif isinstance(n, (_ast.Global, _ast.Nonlocal)):
+                banned.update(n.names)
+            elif isinstance(n, _ast.ClassDef):
+                banned.add(n.name)
+                for b in n.body:
+                    for x in _ast.walk(b):
+                        if isinstance(x, _ast.Name):
+                            banned.add(x.id)
+            elif isinstance(n, (_ast.Import, _ast.ImportFrom)):
+                for al in n.names:
+                    banned.add((al.asname or al.name).split(".")[0])
+            elif isinstance(n, _ast.Name) and isinstance(n.ctx, (_ast.Store, _ast.Del)):
+                stores.add(n.id)
+            elif isinstance(n, _ast.ExceptHandler) and n.name:
+                stores.add(n.name)
+        names = {x for x in stores if x not in params and x not in banned and not x.startswith("__") and not hasattr(_b, x)}
+        for n in _ast.walk(fn):
+            if isinstance(n, _ast.Name) and n.id in names:
+                n.id = n.id + "_v"
+            elif isinstance(n, _ast.ExceptHandler) and n.name in names:
+                n.name = n.name + "_v"
+
+    for d, _, files in os.walk(os.path.join(root, "synrbl")):
+        for f in files:
+            if f.endswith(".py"):
+                p = os.path.join(d, f)
+                with open(p) as fh:
+                    tree = _ast.parse(fh.read())
+                for node in tree.body:
+                    if isinstance(node, (_ast.FunctionDef, _ast.AsyncFunctionDef)):
+                        rename_function(node)
+                    elif isinstance(node, _ast.ClassDef):
+                        for b in node.body:
+                            if isinstance(b, (_ast.FunctionDef, _ast.AsyncFunctionDef)):
+                                rename_function(b)
+                with open(p, "w") as fh:
+                    fh.write(_ast.unparse(tree) + "\n")
+
+
 GLOBAL_VARIANTS = {
     "global-benign-reformat": _global_reformat,
     "global-benign-shuffle-methods-noop": _global_shuffle,
+    "global-benign-rename-locals": _global_rename_locals,
 }
 
 
